@@ -3,15 +3,24 @@
    stops owning what it uses across a callback, releases twice, or leaks. *)
 From Coq Require Import List Arith Bool.
 Import ListNotations.
-From ZI Require Import Model.Own Proofs.Own Gen.CSkeleton.
+From ZI Require Import Model.Own Proofs.Own Proofs.OwnInline Gen.CSkeleton.
 
-Lemma skeleton_disciplined : forallb (D_fn true) skeleton = true.
+(* every path of every extracted function: D, and the stronger Dc (parameters owned throughout) that
+   makes the function a sound callee *)
+Lemma skeleton_disciplined : forallb (D_fn true) skeleton && forallb (Dc_fn true) skeleton = true.
 Proof. vm_compute. reflexivity. Qed.
 
-Lemma skeleton_nonempty : (13 <=? length skeleton) && forallb (fun f => 1 <=? length (fn_paths f)) skeleton = true.
+Lemma skeleton_D : forallb (D_fn true) skeleton = true.
+Proof. pose proof skeleton_disciplined as H. apply andb_true_iff in H. tauto. Qed.
+
+Lemma skeleton_Dc : forallb (Dc_fn true) skeleton = true.
+Proof. pose proof skeleton_disciplined as H. apply andb_true_iff in H. tauto. Qed.
+
+Lemma skeleton_nonempty : (23 <=? length skeleton) && (13 <=? length (filter (fun f => 1 <=? length (fn_paths f)) skeleton)) = true.
 Proof. vm_compute. reflexivity. Qed.
 
-(* every extracted path of every extracted function is safe under every environment *)
+(* every extracted path of every extracted function is safe under every environment (calls replaced
+   by their summaries) *)
 Lemma today_safe : forall f p, In f skeleton -> In p (fn_paths f) ->
   forall orc s k, init_ok (fn_params f) s = true ->
   match exec true orc (expand p) s k with
@@ -21,7 +30,49 @@ Lemma today_safe : forall f p, In f skeleton -> In p (fn_paths f) ->
   | Fault _ => False
   end.
 Proof.
-  intros f p Hf Hp. pose proof skeleton_disciplined as H. rewrite forallb_forall in H.
+  intros f p Hf Hp. pose proof skeleton_D as H. rewrite forallb_forall in H.
   specialize (H f Hf). unfold D_fn in H. rewrite forallb_forall in H. specialize (H p Hp).
   apply discipline_safe. exact H.
 Qed.
+
+(* ... and so is every path of every CALL TREE: calls replaced by the callee's own events, to any depth *)
+Lemma today_trees_safe : forall fid cps body r, Tree skeleton fid cps body r ->
+  forall orc s k, init_ok cps s = true ->
+  match exec true orc (expand body ++ [EReturn r]) s k with
+  | Done s' => balanced cps s' = true
+  | Infeasible => True
+  | Running _ _ => False
+  | Fault _ => False
+  end.
+Proof. exact (tree_safe true skeleton skeleton_Dc). Qed.
+
+(* the call trees one gets by computation: replace call after call by the first fitting callee path *)
+Lemma today_inlined_safe : forall f p b r fuel b', In f skeleton -> In p (fn_paths f) ->
+  split_ret p = Some (b, r) -> inline_all fuel skeleton (fn_params f) b r = Some b' ->
+  forall orc s k, init_ok (fn_params f) s = true ->
+  match exec true orc (expand b' ++ [EReturn r]) s k with
+  | Done s' => balanced (fn_params f) s' = true
+  | Infeasible => True
+  | Running _ _ => False
+  | Fault _ => False
+  end.
+Proof.
+  intros f p b r fuel b' Hf Hp Hs Hi. apply split_ret_inv in Hs. subst p.
+  apply (today_trees_safe (fn_id f)). eapply inline_all_Tree; [|exact Hi]. apply T_base; auto.
+Qed.
+
+(* such trees exist: every path of _lookup1, _adapter_hook, _verify, IB__call__ and providedBy inlines
+   completely (no call left) within 40 replacements *)
+Definition fully_inlines (f : fn) : bool :=
+  forallb (fun p => match split_ret p with
+                    | Some (b, r) => match inline_all 40 skeleton (fn_params f) b r with
+                                     | Some b' => match first_call b' with None => true | Some _ => false end
+                                     | None => false
+                                     end
+                    | None => false
+                    end) (fn_paths f).
+
+Lemma trees_exist :
+  forallb fully_inlines (filter (fun f => existsb (Nat.eqb (fn_id f)) [6; 7; 12; 18; 22]) skeleton) = true
+  /\ length (filter (fun f => existsb (Nat.eqb (fn_id f)) [6; 7; 12; 18; 22]) skeleton) = 5.
+Proof. vm_compute. split; reflexivity. Qed.
